@@ -249,4 +249,55 @@ static int drv_random(unsigned long (*rnd)(void), vop_t *op)
     else { op->k = 8; op->a[0] = a; }
     return 1;
 }
-int main(int argc, char **argv) { return e_main(argc, argv); }
+/* ---- indexes beyond 2^31: views over a buffer of more than 2^31 one-byte elements (address space only,
+ * never touched).  Offsets are logged as four 16-bit limbs; judged by spec/TraceArrBig.tla ---- */
+#include <sys/mman.h>
+static void limbs(FILE *o, const char *n, uint64_t v)
+{
+    fprintf(o, "\"%s\":[%u,%u,%u,%u]", n, (unsigned)(v >> 48) & 0xffff, (unsigned)(v >> 32) & 0xffff, (unsigned)(v >> 16) & 0xffff, (unsigned)v & 0xffff);
+}
+static sigjmp_buf bigjmp;
+static void bigsig(int sgn) { siglongjmp(bigjmp, sgn); }
+static int bigprobe(const char *path)
+{
+    static const uint64_t B = (uint64_t)1 << 31;
+    const uint64_t nm = B + 4096;
+    uint64_t idx[] = { 0, 1, B - 2, B - 1, B, B + 1, B + 4095, B + 4096, (uint64_t)1 << 32, ((uint64_t)1 << 32) + 5, nm - 1 };
+    FILE *o = fopen(path, "w"); unsigned char *buf; cstl_array_t a, s; size_t k; long id = 0;
+    if (!o) return 73;
+    buf = mmap(NULL, nm, PROT_NONE, MAP_PRIVATE | MAP_ANONYMOUS | MAP_NORESERVE, -1, 0);
+    if (buf == MAP_FAILED) { fprintf(o, "{\"id\":0,\"hdr\":true,\"skipped\":true}\n"); fclose(o); return 0; }
+    signal(SIGABRT, bigsig); signal(SIGSEGV, bigsig);
+    fprintf(o, "{\"id\":0,\"hdr\":true}\n");
+    cstl_array_init(&a); cstl_array_init(&s);
+    cstl_array_set(&a, buf, nm, 1);
+    for (k = 0; k < sizeof idx / sizeof idx[0]; k++) {
+        int v;
+        for (v = 0; v < 2; v++) {
+            /* v = 0: index the whole buffer; v = 1: index a 16-element slice that starts at idx - 3 */
+            uint64_t off = 0, i = idx[k]; int sig; const unsigned char *p = NULL; cstl_array_t *obj = &a;
+            if (v == 1) {
+                if (idx[k] < 3 || idx[k] + 13 > nm) continue;
+                off = idx[k] - 3; i = 3;
+                cstl_array_slice(&a, off, off + 16, &s); obj = &s;
+            }
+            sig = sigsetjmp(bigjmp, 1);
+            if (sig == 0) p = cstl_array_at(obj, i);
+            fprintf(o, "{\"id\":%ld,\"op\":\"atbig\",\"out\":\"%s\",", ++id, sig == 0 ? "ok" : sig == SIGABRT ? "abort" : "segv");
+            limbs(o, "off", off); fputc(',', o); limbs(o, "i", i); fputc(',', o);
+            limbs(o, "len", v ? 16 : nm); fputc(',', o);
+            limbs(o, "nm", nm); fputc(',', o); limbs(o, "ret", sig == 0 ? (uint64_t)(p - buf) : 0);
+            fprintf(o, "}\n");
+        }
+    }
+    cstl_array_reset(&s); cstl_array_reset(&a);
+    fclose(o);
+    munmap(buf, nm);
+    printf("{\"bigprobe\":%ld}\n", id);
+    return 0;
+}
+int main(int argc, char **argv)
+{
+    if (argc >= 3 && !strcmp(argv[1], "bigprobe")) return bigprobe(argv[2]);
+    return e_main(argc, argv);
+}
